@@ -6,8 +6,8 @@ from vf import q, qlist, clist, cbool, cnat, copt, frac, fr_json
 
 ID = 'C11'
 COQ_DIR = 'C11'
-COQ_HEADER = 'From V Require Import Common.Num C11.Model.\nOpen Scope Q_scope.'
-RULE = ('(000) MultiStream.reset_flow (empty, phases setter, groups of flows per phase label in every unit, total) on MultiStreams with used views and phase streams, and Stream.empty (14); (00) copy_like between streams of different property packages, single- and multi-phase on either side, incl. a chemical the receiver lacks (14); (0) structured families that make state kept between calls matter: phase streams ms[phase] with used views around a new indexer of the MultiStream (phases setter, package reset, unlink, added phases) (20); Stream.reset_flow with a new phase and flows / totals in every unit (12); single-phase streams with cached views adopted by MultiStream.from_streams, then T/P changed through either side (12); package changes (persistent, or reset-and-restore) to a package with the chemicals at other positions or with other Chemical objects at the same positions, around name-keyed accesses and volumetric totals (18); every unit string x every view through the views\' own get_data/set_data after the unit was converted legitimately elsewhere (24); a view written with another view as the value between streams / phases at different T, P, phase (24); F_vol / volumetric totals re-read after material moved between phases at unchanged overall composition (16); (a) 40 link scenarios in quick (5 per flag subset, all 8 subsets of link_with(flow, phase, TP)) between single-phase streams in different phases with ivol/imass reads, writes and get_flow on both sides in both orders before and after the link; (b) histories of 4-16 operations over a store of 2-3 streams (single-phase Stream and MultiStream, two property packages '
+COQ_HEADER = 'From V Require Import Common.Num C11.Model C11.ModelProp.\nOpen Scope Q_scope.'
+RULE = ('(0000) get_property / set_property of F_mol, F_mass, F_vol in every unit string (right and wrong dimension) from COLD units caches (Stream._flow_cache and every AbsoluteUnitsOfMeasure.factor_cache emptied before the history, as in a new process), so that a unit is first used by set_property (unconvert), by get_property (convert) or by the flow API in either order, then cross-read in the other units of the view, around T / phase changes (24); the same two calls also appear in the random histories, 60% of which start from cold caches; (000) MultiStream.reset_flow (empty, phases setter, groups of flows per phase label in every unit, total) on MultiStreams with used views and phase streams, and Stream.empty (14); (00) copy_like between streams of different property packages, single- and multi-phase on either side, incl. a chemical the receiver lacks (14); (0) structured families that make state kept between calls matter: phase streams ms[phase] with used views around a new indexer of the MultiStream (phases setter, package reset, unlink, added phases) (20); Stream.reset_flow with a new phase and flows / totals in every unit (12); single-phase streams with cached views adopted by MultiStream.from_streams, then T/P changed through either side (12); package changes (persistent, or reset-and-restore) to a package with the chemicals at other positions or with other Chemical objects at the same positions, around name-keyed accesses and volumetric totals (18); every unit string x every view through the views\' own get_data/set_data after the unit was converted legitimately elsewhere (24); a view written with another view as the value between streams / phases at different T, P, phase (24); F_vol / volumetric totals re-read after material moved between phases at unchanged overall composition (16); (a) 40 link scenarios in quick (5 per flag subset, all 8 subsets of link_with(flow, phase, TP)) between single-phase streams in different phases with ivol/imass reads, writes and get_flow on both sides in both orders before and after the link; (b) histories of 4-16 operations over a store of 2-3 streams (single-phase Stream and MultiStream, two property packages '
         'of stub chemicals whose molar volume is an injective dyadic function of (chemical, phase, T, P)): reads of the '
         'mol/mass/vol views and totals, get_flow/get_total_flow in 8 units + 3 wrong-dimension units, writes through every view '
         '(imol/imass/ivol item, set_flow, set_total_flow, F_mol/F_mass/F_vol setters), interleaved with T/P/phase/phases setters, '
@@ -20,6 +20,7 @@ RULE = ('(000) MultiStream.reset_flow (empty, phases setter, groups of flows per
 ASSUMPTIONS = [
     'molar volume oracle Vf chem phase T P > 0 (every chemical has a molar-volume model in the phase) and molecular weights MW > 0',
     'unit factors are positive rationals per unit string with a dimension tag (pint is an oracle); the table used in the correspondence is read from the real AbsoluteUnitsOfMeasure.conversion_factor',
+    'get_property / set_property are modelled for the three flow totals F_mol, F_mass, F_vol (coq/C11/ModelProp.v: the total is read, then convert = value * conversion_factor(units); unconvert = value / conversion_factor(units), then the F_ setter), with the factor cache of the units object of the dimension shared with the views\' get_data / set_data and with Stream._get_flow_name_and_factor; histories flagged cold start from emptied factor caches (the harness clears Stream._flow_cache and every AbsoluteUnitsOfMeasure.factor_cache, the state of a new process), the others from whatever earlier cases left (all of it written by conversion_factor); the direct oracle compares with fixed factors written in props/C11.py (0.45359237 kg/lb, 3.785411784e-3 m3/gal, 3.6, 0.06), not with thermosteam\'s or pint\'s',
     'the molar-volume memo of a volumetric view is reused while |dT|,|dP| < 1e-12 (ThermalCondition.in_equilibrium): vol_get is stated at the (T\',P\') of the memo entry, within 1e-12 of the current values; the generators never move T or P by less than 0.5',
     'float rounding not modelled: values compared to 1e-9 relative; branch decisions are exact because inputs are dyadic; a total-flow setter is not exercised when the current total is a rounding-level residue of an exact cancellation (|F| < 1e-9 sum|x|, possible with the negative test flows)',
     'sparse storage invariant (stored keys = non-zero entries) is C09\'s; molar rows are modelled as dense vectors',
@@ -34,6 +35,7 @@ TRUSTED = ['model coq/C11/Model.v is hand-written from thermosteam/indexer.py (b
            '_multi_stream.py (views, totals, get/set_flow, link_with, unlink, copy_like incl. other packages (index_overlap), '
            '_reset_thermo, phase/phases setters, __getitem__, Stream.empty, Stream.reset_flow, MultiStream.reset_flow as the '
            'composition empty / phases setter / set_flow per phase label / set_total_flow); tie = correspondence check',
+           'coq/C11/ModelProp.v is hand-written from thermosteam/utils/decorators/units_of_measure.py (get_property, set_property) and thermosteam/units_of_measure.py (AbsoluteUnitsOfMeasure.convert / unconvert / conversion_factor); tie = correspondence check',
            'the harness resolves chemical IDs / phase labels to positions with the real objects before the model runs (key lookup is C10\'s)']
 
 PH = {'g': 1, 'l': 2, 's': 3, 'L': 4, 'S': 5}
@@ -113,7 +115,8 @@ def gen_stream(rng):
 
 OPKINDS = (['read'] * 5 + ['F'] * 2 + ['get_flow'] * 3 + ['get_total'] * 2 + ['set'] * 6 + ['set_flow'] * 4 + ['set_total'] * 2
            + ['setF'] * 2 + ['T'] * 3 + ['P'] * 2 + ['phase'] * 4 + ['phases'] * 3 + ['link'] * 4 + ['unlink'] * 3
-           + ['copy_like'] * 3 + ['thermo'] * 2 + ['rtrip'] * 1 + ['alias'] * 2 + ['get_data'] * 3 + ['set_data'] * 2 + ['assign'] * 3 + ['copy_row'] * 2 + ['from_streams'] * 2 + ['sub'] * 3 + ['reset_flow'] * 3 + ['empty'] * 1 + ['reset_flow_m'] * 3)
+           + ['copy_like'] * 3 + ['thermo'] * 2 + ['rtrip'] * 1 + ['alias'] * 2 + ['get_data'] * 3 + ['set_data'] * 2 + ['assign'] * 3 + ['copy_row'] * 2 + ['from_streams'] * 2 + ['sub'] * 3 + ['reset_flow'] * 3 + ['empty'] * 1 + ['reset_flow_m'] * 3
+           + ['get_prop'] * 3 + ['set_prop'] * 3)
 
 def gen_reset_flow_op(rng, i):
     chems = rng.sample(['A_', 'B_', 'C_'], rng.choice([0, 1, 2, 2, 3]))
@@ -167,7 +170,38 @@ def gen_op(rng):
     if k == 'reset_flow': return gen_reset_flow_op(rng, i)
     if k == 'empty': return [k, i]
     if k == 'reset_flow_m': return gen_reset_flow_m_op(rng, i)
+    if k == 'get_prop': return [k, i, view, u]
+    if k == 'set_prop': return [k, i, view, u, float(rng.choice(VALS[1:7]))]
     raise ValueError(k)
+
+OWN_UNITS = {'mol': [0, 1], 'mass': [2, 3, 4], 'vol': [5, 6, 7]}
+def gen_prop_case(rng):
+    """the units objects keep conversion factors between calls and are filled by BOTH directions of conversion: starting from
+    cold caches, a unit string is first used by set_property, by get_property or by the flow API (any order), then the
+    total is cross-read in the other units of the view and written again, with a T / phase change in between"""
+    streams = [gen_stream(rng) for _ in range(2)]
+    ops = []
+    for _ in range(rng.choice([1, 2, 2, 3])):
+        view = rng.choice(['mol', 'mass', 'mass', 'vol', 'vol'])
+        i = rng.randrange(2)
+        us = OWN_UNITS[view]
+        u = rng.choice(us)
+        chem = rng.choice(['A_', 'B_', 'C_'])
+        val = float(rng.choice(VALS[1:7]))
+        first = rng.choice([['set_prop', i, view, u, val]] * 3 + [['get_prop', i, view, u], ['get_total', i, u],
+                            ['set_flow', i, u, 0, chem, val], ['get_data', i, view, u, 0, chem]])
+        ops.append(first)
+        tail = [['get_prop', i, view, rng.choice(us)], ['get_total', i, rng.choice(us)], ['F', i, view],
+                ['set_prop', i, view, rng.choice(us), float(rng.choice(VALS[1:7]))], ['get_flow', i, u, 0, chem],
+                ['get_prop', i, view, u], ['set_total', i, u, float(rng.choice(VALS[1:7]))],
+                rng.choice([['T', i, rng.choice(TS)], ['phase', i, rng.choice(['l', 'g', 's'])], ['P', i, rng.choice(PS)]])]
+        if rng.random() < 0.3:
+            tail.append(rng.choice([['get_prop', i, view, rng.randrange(len(UNITS))],
+                                    ['set_prop', i, view, rng.randrange(len(UNITS)), val]]))
+        rng.shuffle(tail)
+        ops += tail[:rng.randint(3, len(tail))]
+    ops.append(['read', rng.randrange(2), rng.choice(['mol', 'mass', 'vol'])])
+    return {'streams': streams, 'ops': ops, 'cold': True}
 
 def gen_units_case(rng, u, view):
     """the units objects keep conversion factors between calls: a unit string is first converted legitimately (by the
@@ -464,6 +498,8 @@ def gen_cases(rng, tier):
     n = 50 if tier == 'quick' else 2600
     m = 3 if tier == 'quick' else 75            # link scenarios per flag subset
     cases = []
+    for _ in range(24 if tier == 'quick' else 400):
+        cases.append(gen_prop_case(rng))
     for flags in ALL_FLAGS:
         for _ in range(m):
             cases.append(gen_link_case(rng, flags))
@@ -490,12 +526,22 @@ def gen_cases(rng, tier):
     for _ in range(n):
         streams = [gen_stream(rng) for _ in range(rng.choice([2, 2, 3]))]
         ops = [gen_op(rng) for _ in range(rng.randint(4, 16))]
-        cases.append({'streams': streams, 'ops': ops})
+        cases.append({'streams': streams, 'ops': ops, 'cold': rng.random() < 0.6})
     return cases
 
 # ------------------------------------------------------------------ implementation side
+def cold_units():
+    """state of a new process: no unit string has been converted yet (every cache of conversion factors is empty)"""
+    tmo = env()['tmo']
+    from thermosteam.units_of_measure import AbsoluteUnitsOfMeasure
+    for uo in list(AbsoluteUnitsOfMeasure._cache.values()):
+        uo.factor_cache.clear()
+    tmo.Stream._flow_cache.clear()
+
 def build(case):
     e = env(); tmo = e['tmo']
+    if case.get('cold'):
+        cold_units()
     store = []
     for s in case['streams']:
         th = e['thermos'][s['pkg']]
@@ -674,6 +720,14 @@ def apply_op(store, op):
         def f():
             getattr(s, 'i' + op[2])[key] = op[5]
         return res, run(f)
+    if k == 'get_prop':
+        res = ['get_prop', i, op[2], op[3]]
+        return res, run(lambda: [[fr_json(frac(s.get_property('F_' + op[2], UNITS[op[3]])))]])
+    if k == 'set_prop':
+        if rounding_level_total(s, op[2]):
+            return ['skip'], None
+        res = ['set_prop', i, op[2], op[3], op[4]]
+        return res, run(lambda: s.set_property('F_' + op[2], op[4], UNITS[op[3]]))
     if k == 'setF':
         if rounding_level_total(s, op[2]):
             return ['skip'], None
@@ -795,6 +849,12 @@ def cph(p):
 
 def cop(o):
     k = o[0]
+    if k == 'get_prop': return f'(XGetProp {cnat(o[1])} {VIEW[o[2]]} {cnat(o[3])})'
+    if k == 'set_prop': return f'(XSetProp {cnat(o[1])} {VIEW[o[2]]} {cnat(o[3])} {q(o[4])})'
+    return f'(XBase {cop0(o)})'
+
+def cop0(o):
+    k = o[0]
     if k == 'skip': return 'OSkip'
     if k == 'read': return f'(ORead {cnat(o[1])} {VIEW[o[2]]})'
     if k == 'F': return f'(OTotal {cnat(o[1])} {VIEW[o[2]]})'
@@ -865,14 +925,14 @@ def cutab():
     return clist(tab, one)
 
 def coq_case(case, out):
-    return (f'(check_case {cutab()} {clist(case["streams"], cinit)} {clist(out["ops"], cop)} '
+    return (f'(check_caseX {cutab()} {clist(case["streams"], cinit)} {clist(out["ops"], cop)} '
             f'{clist(out["obs"], cobs)} {clist(out["final"], cfinal)})')
 
 def coq_show(case, out):
-    return f'(show_case {cutab()} {clist(case["streams"], cinit)} {clist(out["ops"], cop)})'
+    return f'(show_caseX {cutab()} {clist(case["streams"], cinit)} {clist(out["ops"], cop)})'
 
 STRUCT = ('T', 'P', 'phase', 'phases', 'link', 'unlink', 'copy_like', 'thermo', 'rtrip', 'from_streams', 'sub', 'reset_flow', 'reset_flow_m')
-WRITES = ('set', 'set_flow', 'set_total', 'setF', 'set_data', 'assign', 'copy_row', 'reset_flow', 'reset_flow_m', 'empty')
+WRITES = ('set', 'set_flow', 'set_total', 'setF', 'set_prop', 'set_data', 'assign', 'copy_row', 'reset_flow', 'reset_flow_m', 'empty')
 def nontrivial(case, out):
     ok = [o[0] for o, b in zip(out.get('ops', []), out.get('obs', [])) if not (isinstance(b, str))]
     return any(k in STRUCT for k in ok) and any(k in WRITES for k in ok)
@@ -939,6 +999,11 @@ def check_stream(s, where):
     if not all(fl): return f'{where}: cached views do not wrap the current molar data/TP/phase: flags {fl}'
     return None
 
+# fixed conversion factors (base unit of the view per 1 unit), independent of thermosteam and pint
+TOBASE = [1., 3.6, 1., 0.45359237, 0.06, 1., 0.06, 60. * 3.785411784e-3, None, None, None]
+UDIM = ['mol', 'mol', 'mass', 'mass', 'mass', 'vol', 'vol', 'vol', None, None, None]
+BASEU = {'mol': 'kmol/hr', 'mass': 'kg/hr', 'vol': 'm3/hr'}
+
 def oracle(case):
     e = env(); tmo = e['tmo']
     import numpy as np
@@ -948,7 +1013,7 @@ def oracle(case):
         s = store[op[1] % len(store)]
         where = f'op#{n} {k}'
         before = None
-        if k in ('set_total', 'setF'):
+        if k in ('set_total', 'setF', 'set_prop'):
             d = np.asarray(s._imol.data.to_array(), float).reshape(-1)
             before = d / d.sum() if d.sum() else None
         want = None
@@ -980,6 +1045,12 @@ def oracle(case):
                     return f'{where}: wrong-dimension unit {UNITS[op[2]]} raised {type(ex).__name__}, not DimensionError'
                 if dim_ok and type(ex).__name__ == 'DimensionError':
                     return f'{where}: unit {UNITS[op[2]]} rejected'
+            if k in ('get_prop', 'set_prop'):
+                dim_ok = UDIM[op[3]] == op[2]
+                if not dim_ok and type(ex).__name__ != 'DimensionalityError':
+                    return f'{where}: wrong-dimension unit {UNITS[op[3]]} for F_{op[2]} raised {type(ex).__name__}, not DimensionalityError'
+                if dim_ok and (k == 'get_prop' or type(ex).__name__ in ('DimensionalityError', 'DimensionError')):
+                    return f'{where}: {k}(F_{op[2]}, {UNITS[op[3]]}) raised {type(ex).__name__}: {ex}'
             if k in ('get_data', 'set_data'):
                 dim_ok = e['utab'][op[3]][0] == op[2]
                 if dim_ok:
@@ -1009,6 +1080,28 @@ def oracle(case):
             s = store[res[1]]
             if k in ('get_flow', 'set_flow', 'get_total', 'set_total') and e['utab'][op[2]][1] is None:
                 return f'{where}: wrong-dimension unit {UNITS[op[2]]} was accepted'
+            if k in ('get_prop', 'set_prop'):
+                vw, u_ = op[2], op[3]
+                if UDIM[u_] != vw:
+                    return f'{where}: dimensionally inconsistent unit {UNITS[u_]} was accepted by {k}(F_{vw})'
+                Fb = float(getattr(s, 'F_' + vw))
+                if k == 'get_prop':
+                    got = float(F(obs[0][0]))
+                    if not close(got, Fb / TOBASE[u_]):
+                        return (f'{where}: get_property(F_{vw}, {UNITS[u_]}) = {got} but F_{vw} = {Fb} {BASEU[vw]} '
+                                f'and the fixed factor gives {Fb / TOBASE[u_]} {UNITS[u_]}')
+                else:
+                    want_b = op[4] * TOBASE[u_]
+                    if not close(Fb, want_b):
+                        return (f'{where}: set_property(F_{vw}, {op[4]}, {UNITS[u_]}) left F_{vw} = {Fb} {BASEU[vw]}; the fixed factor '
+                                f'of {UNITS[u_]} says {want_b} {BASEU[vw]}')
+                    for u2 in OWN_UNITS[vw]:
+                        for how, f_ in (('get_property', lambda: s.get_property('F_' + vw, UNITS[u2])),
+                                        ('get_total_flow', lambda: s.get_total_flow(UNITS[u2]))):
+                            got = float(f_())
+                            if not close(got, want_b / TOBASE[u2]):
+                                return (f'{where}: wrote F_{vw} = {op[4]} {UNITS[u_]} with set_property; {how}({UNITS[u2]}) returns {got}, '
+                                        f'the fixed factors say {want_b / TOBASE[u2]}')
             if k in ('get_data', 'set_data'):
                 name, fac = e['utab'][op[3]]
                 if name != op[2]:
@@ -1087,7 +1180,7 @@ def oracle(case):
             if k == 'setF':
                 got = getattr(s, 'F_' + op[2])
                 if not close(got, op[3]): return f'{where}: F_{op[2]} = {op[3]}, read back {got}'
-            if k in ('set_total', 'setF') and before is not None:
+            if k in ('set_total', 'setF', 'set_prop') and before is not None:
                 d = np.asarray(s._imol.data.to_array(), float).reshape(-1)
                 if d.sum() and not all(close(a, b) for a, b in zip(before, d / d.sum())):
                     return f'{where}: composition changed'
